@@ -29,7 +29,8 @@ CHECKS = {
              "transposons, block_interchange, all_cycles, heisenberg, special_linear_fundamental_roots, special_linear_root_weyl: the constructor succeeds EXACTLY on the documented "
              "range (C15_*_range), returns the closed-form generators, count formula, names, name, central state, has the documented action on sequences (reversal, shift, swap, "
              "3-cycle, block transposition ...) / matrix structure (I + E_ab, Weyl matrix, determinant 1), and is inverse-closed exactly as documented (C15_*_documented). "
-             "Derangements, involutive derangements and conjugacy classes: bounded. ALL families: the boolean acceptance check "
+             "Derangements, involutive derangements and full conjugacy classes: membership characterised for every n (C15_derangements_spec, C15_involutive_derangements_spec, "
+             "C15_conjugacy_classes_spec). ALL families: the boolean acceptance check "
              "(validity, count, names, structure, inverse-closedness) is proved to mean what it says and holds for EVERY parameter tuple up to the stated bound by kernel computation "
              "(the property's own quantifier is bounded by enumerability). Tie: exhaustive equality model = implementation over the same bounded parameter domain (definitions AND "
              "error classes), an independent docstring oracle in Python (group orders for A_n / SL(n,Z/m) / Heisenberg), T4 translator of prepare_graph's dispatch chain + lookup == constructor, "
@@ -221,12 +222,13 @@ CHECKS = {
     "C20": dict(
         text="Machine-checked Coq theorems about a Gallina model of permutation_utils.py: apply/compose/inverse group laws and "
              "is_permutation for every permutation of every length (unbounded, by induction); cycle construction and "
-             "partition_to_permutation for all disjoint cycle lists / all shuffles; conjugacy-class enumeration exhaustively for "
-             "n<=6 (bound in the statement, kernel computation). The model is tied to the code by evaluating it inside Coq on the "
+             "partition_to_permutation for all disjoint cycle lists / all shuffles; conjugacy-class enumeration for EVERY n: the canonical "
+             "backtracking enumeration returns exactly the permutations with the requested cycle type, each once, n!/prod k^m_k m_k! of them "
+             "(C20_class_enum_In_iff, C20_class_enum_NoDup, C20_class_enum_count; the earlier bounded n<=6 statement is kept). The model is tied to the code by evaluating it inside Coq on the "
              "same inputs as the implementation (exhaustive for small n, exact output equality, error classes included).",
         note="Trusted: Coq kernel + vm_compute, the hand-written model Perm.v (validated by the correspondence), CPython list semantics, "
-             "harness generators. Class enumeration for general n is not proved (bounded statement).",
-        technique="Coq proof (induction) + vm_compute-exhaustive bounded theorem + model/implementation correspondence",
+             "harness generators.",
+        technique="Coq proof (induction; class enumeration sound, complete, duplicate-free and counted for every n) + model/implementation correspondence",
         design="7 (C20)"),
 }
 
